@@ -26,73 +26,77 @@ pub const NO_OBJ: u32 = u32::MAX;
 /// it is parked in a thread-local while the thread is inside a world.
 pub struct Ctx {
     pub tid: usize,
-    pub armed: bool,
-    pub op_steps: u64,
-    pub fuel: u64,
+    pub armed: Cell<bool>,
+    pub op_steps: Cell<u64>,
+    pub fuel: Cell<u64>,
     /// 0 = no cancel armed
-    pub cancel_at: u64,
-    pub total_steps: u64,
-    pub sites: [u64; NSITES],
+    pub cancel_at: Cell<u64>,
+    pub total_steps: Cell<u64>,
+    pub sites: [Cell<u64>; NSITES],
     pub sched: *const Scheduler,
-    pub look_depth: u32,
+    pub look_depth: Cell<u32>,
     /// object id of the Regex being searched by the current op (NO_OBJ if none)
-    pub cur_obj: u32,
-    pub ev: Fnv,
+    pub cur_obj: Cell<u32>,
+    pub ev: Cell<u64>,
     /// model mode: count-only, own fuel, no scheduling, no site statistics
-    pub model: bool,
-    pub model_steps: u64,
-    pub model_fuel: u64,
-    pub model_total: u64,
+    pub model: Cell<bool>,
+    pub model_steps: Cell<u64>,
+    pub model_fuel: Cell<u64>,
+    pub model_total: Cell<u64>,
 }
 
 impl Ctx {
     pub fn new(tid: usize, sched: *const Scheduler) -> Ctx {
         Ctx {
             tid,
-            armed: false,
-            op_steps: 0,
-            fuel: u64::MAX,
-            cancel_at: 0,
-            total_steps: 0,
-            sites: [0; NSITES],
+            armed: Cell::new(false),
+            op_steps: Cell::new(0),
+            fuel: Cell::new(u64::MAX),
+            cancel_at: Cell::new(0),
+            total_steps: Cell::new(0),
+            sites: std::array::from_fn(|_| Cell::new(0)),
             sched,
-            look_depth: 0,
-            cur_obj: NO_OBJ,
-            ev: Fnv::default(),
-            model: false,
-            model_steps: 0,
-            model_fuel: u64::MAX,
-            model_total: 0,
+            look_depth: Cell::new(0),
+            cur_obj: Cell::new(NO_OBJ),
+            ev: Cell::new(Fnv::default().0),
+            model: Cell::new(false),
+            model_steps: Cell::new(0),
+            model_fuel: Cell::new(u64::MAX),
+            model_total: Cell::new(0),
         }
+    }
+    pub fn sites_snapshot(&self) -> [u64; NSITES] {
+        std::array::from_fn(|i| self.sites[i].get())
     }
 }
 
 thread_local! {
-    static CTX: Cell<*mut Ctx> = const { Cell::new(std::ptr::null_mut()) };
+    static CTX: Cell<*const Ctx> = const { Cell::new(std::ptr::null()) };
 }
 
 /// Install `ctx` as this thread's hook context for the duration of `f`.
-pub fn with_ctx<R>(ctx: &mut Ctx, f: impl FnOnce(&mut Ctx) -> R) -> R {
-    let p = ctx as *mut Ctx;
+/// All mutable fields are Cells: the hook and the op code share `&Ctx`.
+pub fn with_ctx<R>(ctx: &Ctx, f: impl FnOnce(&Ctx) -> R) -> R {
+    let p = ctx as *const Ctx;
     let prev = CTX.with(|c| c.replace(p));
-    struct Restore(*mut Ctx);
+    struct Restore(*const Ctx);
     impl Drop for Restore {
         fn drop(&mut self) {
             CTX.with(|c| c.set(self.0));
         }
     }
     let _r = Restore(prev);
-    // SAFETY: p outlives this call; the hook only dereferences it on this thread.
-    f(unsafe { &mut *p })
+    f(ctx)
 }
 
-/// Raw access for op execution code running inside `with_ctx`.
-pub fn cur_ctx() -> Option<&'static mut Ctx> {
+/// The current thread's context, if it is inside a world.
+pub fn cur_ctx() -> Option<&'static Ctx> {
     let p = CTX.with(|c| c.get());
     if p.is_null() {
         None
     } else {
-        Some(unsafe { &mut *p })
+        // SAFETY: the pointer is only installed by with_ctx for the duration of a call on this thread
+        Some(unsafe { &*p })
     }
 }
 
@@ -102,39 +106,42 @@ pub fn hook(site_id: u32, aux: usize) {
     if p.is_null() {
         return;
     }
-    let ctx = unsafe { &mut *p };
-    if ctx.model {
-        ctx.model_steps += 1;
-        ctx.model_total += 1;
-        if ctx.model_steps > ctx.model_fuel {
-            ctx.model = false;
+    let ctx = unsafe { &*p };
+    if ctx.model.get() {
+        ctx.model_steps.set(ctx.model_steps.get() + 1);
+        ctx.model_total.set(ctx.model_total.get() + 1);
+        if ctx.model_steps.get() > ctx.model_fuel.get() {
+            ctx.model.set(false);
             std::panic::resume_unwind(Box::new(SimCancel::Fuel));
         }
         return;
     }
-    if !ctx.armed {
+    if !ctx.armed.get() {
         return;
     }
-    ctx.sites[(site_id as usize) & (NSITES - 1)] += 1;
-    ctx.op_steps += 1;
-    ctx.total_steps += 1;
-    ctx.ev.byte(site_id as u8);
+    let sc = &ctx.sites[(site_id as usize) & (NSITES - 1)];
+    sc.set(sc.get() + 1);
+    ctx.op_steps.set(ctx.op_steps.get() + 1);
+    ctx.total_steps.set(ctx.total_steps.get() + 1);
+    let mut ev = Fnv(ctx.ev.get());
+    ev.byte(site_id as u8);
+    ctx.ev.set(ev.0);
     if site_id == site::LOOK_IN {
-        ctx.look_depth += 1;
+        ctx.look_depth.set(ctx.look_depth.get() + 1);
     } else if site_id == site::LOOK_OUT {
-        ctx.look_depth = ctx.look_depth.saturating_sub(1);
+        ctx.look_depth.set(ctx.look_depth.get().saturating_sub(1));
     }
-    if ctx.op_steps > ctx.fuel {
-        ctx.armed = false;
+    if ctx.op_steps.get() > ctx.fuel.get() {
+        ctx.armed.set(false);
         std::panic::resume_unwind(Box::new(SimCancel::Fuel));
     }
-    if ctx.op_steps == ctx.cancel_at {
-        ctx.armed = false;
+    if ctx.op_steps.get() == ctx.cancel_at.get() {
+        ctx.armed.set(false);
         std::panic::resume_unwind(Box::new(SimCancel::Cancel));
     }
     if !ctx.sched.is_null() {
         let s = unsafe { &*ctx.sched };
-        s.decision_point(ctx.tid, site_id, aux, ctx.look_depth, ctx.cur_obj);
+        s.decision_point(ctx.tid, site_id, aux, ctx.look_depth.get(), ctx.cur_obj.get());
     }
 }
 
